@@ -82,8 +82,9 @@ def run_c15(prop, tier, seed, scratch):
     log("[async] %s schedules enforced (%s infeasible), %s free runs, %s reader combinations, %d race reports, %.1fs"
         % (s.get("schedules_enforced"), s.get("schedules_infeasible"), s.get("free_runs"), s.get("reader_combinations"), len(races), time.time() - t0))
     violations += s.get("violations") or []
-    lib_races = [r for r in races if "/repo/" in r]
-    harness_races = [r for r in races if "/repo/" not in r]
+    # a report belongs to the library when one of its stacks has a frame inside the anytype package
+    lib_races = [r for r in races if "github.com/DanielSvub/anytype." in r]
+    harness_races = [r for r in races if "github.com/DanielSvub/anytype." not in r]
     if harness_races and not lib_races:
         raise Inconclusive("the race detector reports a race inside the harness only:\n" + harness_races[0][:3000])
     for r in lib_races[:3]:
